@@ -315,3 +315,146 @@ Proof.
   - destruct (decimal_parse_with nd2 s) as [w|] eqn:E2; [|reflexivity].
     rewrite (decimal_parse_complete nd1 s w H1 (decimal_parse_sound nd2 s w H2 E2)) in E1. discriminate.
 Qed.
+
+(* ------------------------------------------------------------------ datetime / duration operations *)
+Lemma day_ms_pos : 0 < day_ms. Proof. reflexivity. Qed.
+
+(* offset / durationSince: the exact sum / difference, or the error iff it is outside i64 *)
+Lemma dt_offset_exact t d :
+  dt_offset t d = if in_i64 (t + d) then Some (t + d) else None.
+Proof. reflexivity. Qed.
+Lemma dt_duration_since_exact a b :
+  dt_duration_since a b = if in_i64 (a - b) then Some (a - b) else None.
+Proof. reflexivity. Qed.
+
+(* toDate: the start of the day containing t (floor), or the error iff that is below i64::MIN *)
+Lemma dt_to_date_exact t :
+  in_i64 t = true ->
+  let day_start := day_ms * (t / day_ms) in
+  day_start <= t < day_start + day_ms /\
+  dt_to_date t = if i64_min <=? day_start then Some day_start else None.
+Proof.
+  intros Ht. cbv zeta. pose proof (Z.div_mod t day_ms ltac:(unfold day_ms; lia)) as E.
+  pose proof (Z.mod_pos_bound t day_ms day_ms_pos) as B.
+  split; [lia|]. unfold dt_to_date.
+  replace (t - t mod day_ms) with (day_ms * (t / day_ms)) by lia.
+  apply in_i64_bounds in Ht. unfold in_i64.
+  replace (day_ms * (t / day_ms) <=? i64_max) with true; [rewrite andb_true_r; reflexivity|].
+  symmetry. apply Z.leb_le. unfold i64_max. lia.
+Qed.
+
+(* toTime, as coded with the truncating remainder, is the floor remainder: 0 <= . < one day *)
+Lemma dt_to_time_exact t : dt_to_time t = t mod day_ms /\ 0 <= dt_to_time t < day_ms.
+Proof.
+  assert (E : dt_to_time t = t mod day_ms).
+  { unfold dt_to_time. pose proof day_ms_pos as P.
+    pose proof (Z.mod_pos_bound t day_ms P) as B.
+    pose proof (Z.div_mod t day_ms ltac:(lia)) as D.
+    pose proof (Z.quot_rem' t day_ms) as Q.
+    destruct (t <? 0) eqn:N.
+    - apply Z.ltb_lt in N. pose proof (Z.rem_nonpos t day_ms ltac:(lia) ltac:(lia)) as R1.
+      assert (R2 : - day_ms < Z.rem t day_ms).
+      { pose proof (Z.rem_opp_l t day_ms ltac:(lia)) as O. pose proof (Z.rem_bound_pos (- t) day_ms ltac:(lia) ltac:(lia)). lia. }
+      destruct (Z.rem t day_ms =? 0) eqn:Z0.
+      + apply Z.eqb_eq in Z0. rewrite Z0 in *. apply Z.mod_unique_pos with (q := Z.quot t day_ms); unfold day_ms in *; lia.
+      + apply Z.eqb_neq in Z0. apply Z.mod_unique_pos with (q := Z.quot t day_ms - 1); unfold day_ms in *; lia.
+    - apply Z.ltb_ge in N. apply Z.rem_mod_nonneg; lia. }
+  split; [exact E|]. rewrite E. apply Z.mod_pos_bound. exact day_ms_pos.
+Qed.
+
+Lemma dt_to_date_plus_to_time t d :
+  dt_to_date t = Some d -> d + dt_to_time t = t.
+Proof.
+  unfold dt_to_date. destruct (in_i64 _); [|discriminate]. intros H. inversion H; subst.
+  rewrite (proj1 (dt_to_time_exact t)). lia.
+Qed.
+
+(* to* : truncation toward zero of the exact quotient, in one step *)
+Lemma dur_to_exact ms :
+  dur_to_seconds ms = Z.quot ms 1000 /\ dur_to_minutes ms = Z.quot ms 60000 /\
+  dur_to_hours ms = Z.quot ms 3600000 /\ dur_to_days ms = Z.quot ms 86400000.
+Proof.
+  unfold dur_to_days, dur_to_hours, dur_to_minutes, dur_to_seconds.
+  rewrite !Z.quot_quot by lia. repeat split; reflexivity.
+Qed.
+
+Lemma quot_in_i64 ms k : 0 < k -> in_i64 ms = true -> in_i64 (Z.quot ms k) = true.
+Proof.
+  intros Hk H. apply in_i64_bounds in H. apply in_i64_bounds.
+  destruct (Z_le_gt_dec 0 ms).
+  - pose proof (Z.quot_pos ms k ltac:(lia) ltac:(lia)). pose proof (Z.quot_le_upper_bound ms k ms ltac:(lia)) as U.
+    assert (ms <= k * ms) by nia. lia.
+  - pose proof (Z.quot_opp_l ms k ltac:(lia)) as O.
+    pose proof (Z.quot_pos (- ms) k ltac:(lia) ltac:(lia)).
+    pose proof (Z.quot_le_upper_bound (- ms) k (- ms) ltac:(lia)) as U.
+    assert (- ms <= k * - ms) by nia. lia.
+Qed.
+
+(* ------------------------------------------------------------------ comparisons and equality *)
+Lemma decimal_lt_rational x y : Z.ltb x y = true <-> (x * 1 < y * 1).
+Proof. rewrite Z.ltb_lt. lia. Qed.
+
+Lemma ext_eq_by_value a b : ext_eqb a b = true <-> a = b.
+Proof.
+  destruct a as [x|[v6 ad pf]|x|x], b as [y|[v6' ad' pf']|y|y]; cbn; split; intros H; try discriminate; try congruence.
+  all: try (apply Z.eqb_eq in H; congruence).
+  all: try (inversion H; subst; apply Z.eqb_refl).
+  - repeat (apply andb_true_iff in H; destruct H as [H ?]).
+    apply eqb_prop in H. apply N.eqb_eq in H0. apply N.eqb_eq in H1. congruence.
+  - inversion H; subst. rewrite eqb_reflx, !N.eqb_refl. reflexivity.
+Qed.
+
+(* ------------------------------------------------------------------ civil dates *)
+Definition next_date (y m d : Z) : Z * Z * Z :=
+  if d <? days_in_month y m then (y, m, d + 1)
+  else if m <? 12 then (y, m + 1, 1) else (y + 1, 1, 1).
+
+Lemma days_in_month_range y m : 28 <= days_in_month y m <= 31.
+Proof. unfold days_in_month. repeat match goal with |- context [if ?b then _ else _] => destruct b end; lia. Qed.
+
+Lemma epoch_day_zero : days_from_civil 1970 1 1 = 0.
+Proof. reflexivity. Qed.
+
+Lemma is_leap_spec y : is_leap y = true <-> (y mod 4 = 0 /\ (y mod 100 <> 0 \/ y mod 400 = 0)).
+Proof.
+  unfold is_leap. rewrite andb_true_iff, orb_true_iff, negb_true_iff, !Z.eqb_eq, Z.eqb_neq. tauto.
+Qed.
+
+Lemma days_before_year_succ y : 0 <= y ->
+  days_before_year (y + 1) = days_before_year y + (if is_leap y then 366 else 365).
+Proof.
+  intros Hy. unfold days_before_year.
+  replace (y + 1 + 3) with (y + 4) by lia. replace (y + 1 + 99) with (y + 100) by lia.
+  replace (y + 1 + 399) with (y + 400) by lia.
+  destruct (is_leap y) eqn:L.
+  - apply is_leap_spec in L. Z.div_mod_to_equations. lia.
+  - assert (NL : ~ (y mod 4 = 0 /\ (y mod 100 <> 0 \/ y mod 400 = 0))) by (rewrite <- is_leap_spec; congruence).
+    Z.div_mod_to_equations. lia.
+Qed.
+
+(* days_from_civil is THE day count: 1970-01-01 is day 0 and every valid date's successor
+   (next day, across month and year ends, leap years included) is a valid date one day later *)
+Theorem days_from_civil_next y m d :
+  0 <= y -> valid_ymd y m d = true ->
+  let '(y', m', d') := next_date y m d in
+  valid_ymd y' m' d' = true /\ days_from_civil y' m' d' = days_from_civil y m d + 1.
+Proof.
+  intros Hy V. unfold valid_ymd in V. repeat rewrite andb_true_iff in V. destruct V as [[[M1 M2] D1] D2].
+  apply Z.leb_le in M1, M2, D1, D2.
+  assert (C : m = 1 \/ m = 2 \/ m = 3 \/ m = 4 \/ m = 5 \/ m = 6 \/ m = 7 \/ m = 8 \/ m = 9 \/ m = 10 \/ m = 11 \/ m = 12) by lia.
+  pose proof (days_before_year_succ y Hy) as Y.
+  unfold next_date, valid_ymd, days_from_civil.
+  repeat destruct C as [C|C]; subst m;
+    unfold days_in_month, days_before_month in *;
+    repeat match goal with |- context [Z.pos ?a + 1] =>
+             let v := eval vm_compute in (Z.pos a + 1) in change (Z.pos a + 1) with v end;
+    cbn -[is_leap Z.add Z.sub Z.mul Z.div days_before_year Z.leb Z.ltb] in *;
+    repeat match goal with |- context [Z.pos ?a <? Z.pos ?b] =>
+             let v := eval vm_compute in (Z.pos a <? Z.pos b) in change (Z.pos a <? Z.pos b) with v end;
+    cbv iota in *;
+    destruct (is_leap y) eqn:L; cbv iota in *;
+    match goal with |- context [d <? ?k] => destruct (Z.ltb_spec d k) end;
+    cbn -[is_leap Z.add Z.sub Z.mul Z.div days_before_year Z.leb] in *;
+    rewrite ?L; cbv iota;
+    rewrite ?andb_true_iff, ?Z.leb_le; try lia.
+Qed.
